@@ -176,6 +176,15 @@ class Check:
                 open(dst, "w").write(src)
         except OSError:
             pass
+        if name == "inproc":
+            # the macro crate's current sources are compiled into the harness (T1/T2)
+            rc, out, err = sh(["./sync.sh"], cwd=d)
+            if rc != 0:
+                raise RuntimeError("sync of macro sources failed: " + err)
+            lib = open(os.path.join(REPO, "assert-struct-macros", "src", "lib.rs")).read()
+            if not re.search(r"struct AssertStruct \{\s*value: syn::Expr,\s*pattern: Pattern,\s*\}", lib) or \
+               not re.search(r"let assert = match syn::parse\(input\) \{\s*Ok\(assert\) => assert,\s*Err\(err\) => return TokenStream::from\(err\.to_compile_error\(\)\),\s*\};\s*(//[^\n]*\s*)*let expanded = expand::expand\(&assert\);", lib):
+                raise RuntimeError("assert-struct-macros/src/lib.rs no longer has the entry-point shape the in-process harness mirrors (struct AssertStruct / syn::parse -> expand::expand)")
         rc, out, err = sh(["cargo", "build", "--release", "--offline"], cwd=d, timeout=3600)
         if rc != 0:
             raise RuntimeError("cargo build of harness %s failed:\n%s" % (name, err[-6000:]))
